@@ -8,10 +8,11 @@ independent reference unroller (see `tools/props/C06.json`: planned as a theorem
 import Rooc.Pre.Expand
 import Rooc.Sem
 import Rooc.Proofs.Field
+import Rooc.Proofs.Pre
 import Mathlib.Algebra.BigOperators.Group.List.Basic
 namespace Rooc.Props.C06
 set_option linter.unusedSectionVars false
-open Rooc Rooc.Pre Rooc.Sem
+open Rooc Rooc.Pre Rooc.Sem Rooc.Proofs.Pre
 
 section folds
 variable {K : Type} [Field K] [LinearOrder K] [IsStrictOrderedRing K] [FloorRing K]
@@ -99,29 +100,11 @@ end folds
 
 /-! ### ranges -/
 
-theorem mem_intsFrom (lo : Int) (n : Nat) (i : Int) : i ∈ intsFrom lo n ↔ lo ≤ i ∧ i < lo + n := by
-  induction n generalizing lo with
-  | zero => simp [intsFrom]; try omega
-  | succ n ih => simp [intsFrom, ih]; try omega
-
 /-- `range_spec`: `lo..hi` contains exactly the integers `lo ≤ i < hi`, `lo..=hi` exactly `lo ≤ i ≤ hi`
 (so both are empty when `hi < lo`, and `lo..lo` is empty while `lo..=lo` is `[lo]`) -/
 theorem range_spec (lo hi : Int) (inclusive : Bool) (i : Int) :
     i ∈ rangeVals lo hi inclusive ↔ lo ≤ i ∧ (if inclusive then i ≤ hi else i < hi) := by
   cases inclusive <;> simp [rangeVals, mem_intsFrom] <;> omega
-
-private theorem intsFrom_length' (lo : Int) (n : Nat) : (intsFrom lo n).length = n := by
-  induction n generalizing lo with
-  | zero => rfl
-  | succ n ih => simp [intsFrom, ih]
-
-theorem intsFrom_get (lo : Int) (n k : Nat) (h : k < n) : (intsFrom lo n)[k]? = some (lo + k) := by
-  induction n generalizing lo k with
-  | zero => omega
-  | succ n ih =>
-    cases k with
-    | zero => simp [intsFrom]
-    | succ k => simp only [intsFrom, List.getElem?_cons_succ]; rw [ih (lo + 1) k (by omega)]; congr 1; push_cast; omega
 
 /-- iteration order: the `k`-th element is `lo + k` -/
 theorem range_order (lo hi : Int) (inclusive : Bool) (k : Nat) (h : k < (rangeVals lo hi inclusive).length) :
@@ -133,14 +116,6 @@ theorem range_order (lo hi : Int) (inclusive : Bool) (k : Nat) (h : k < (rangeVa
 example : rangeVals 2 2 false = [] ∧ rangeVals 2 2 true = [2] ∧ rangeVals (-2) 1 false = [-2, -1, 0] ∧ rangeVals 3 1 true = [] := by decide
 
 /-! ### enumerate, zip -/
-
-theorem enumerateFrom_get {β : Type} (xs : List β) (s i : Nat) : (enumerateFrom s xs)[i]? = xs[i]?.map (fun x => (x, s + i)) := by
-  induction xs generalizing s i with
-  | nil => simp [enumerateFrom]
-  | cons x xs ih =>
-    cases i with
-    | zero => simp [enumerateFrom]
-    | succ i => simp only [enumerateFrom, List.getElem?_cons_succ]; rw [ih]; congr 1; funext x; congr 1; omega
 
 /-- `enumerate_spec`: the `i`-th element of `enumerate xs` is `(xs[i], i)` -/
 theorem enumerate_spec {β : Type} (xs : List β) (i : Nat) : (enumerate xs)[i]? = xs[i]?.map (fun x => (x, i)) := by
@@ -231,9 +206,6 @@ private theorem split_at_underscore (x y s t : List Char) (hx : '_' ∉ x) (hy :
 
 private theorem no_underscore_absurd (x y t : List Char) (hx : '_' ∉ x) (h : x = y ++ '_' :: t) : False := by
   subst h; simp at hx
-
-/-- every index fragment is free of `_` -/
-def underscoreFree (frags : List (List Char)) : Prop := ∀ f ∈ frags, '_' ∉ f
 
 /-- **name injectivity (partial)**: two non-empty index lists whose printed fragments contain no
 `_` flatten to the same name only if they are equal — `x_1_23` and `x_12_3` are different names. -/
